@@ -37,15 +37,15 @@ DRV = tr.Driver(SPG, "bound_constrained_trust_region_minimize", "projected-gradi
 
 def run(ctx):
     ctx.need_module(SPG)
-    tr.d1_flag(ctx, DRV)
-    d1_params(ctx)
-    tr.d2_descent(ctx, DRV)
-    tr.d3_reported(ctx, DRV)
-    tr.d4_nan(ctx, DRV)
-    d3_feasible(ctx)
-    t6_siblings(ctx)
+    ctx.guard(tr.d1_flag, ctx, DRV)
+    ctx.guard(d1_params, ctx)
+    ctx.guard(tr.d2_descent, ctx, DRV)
+    ctx.guard(tr.d3_reported, ctx, DRV)
+    ctx.guard(tr.d4_nan, ctx, DRV)
+    ctx.guard(d3_feasible, ctx)
+    ctx.guard(t6_siblings, ctx)
     from .common import settings_wiring
-    settings_wiring(ctx, "D1/T5-settings-wiring", SPG)
+    ctx.guard(settings_wiring, ctx, "D1/T5-settings-wiring", SPG)
     ctx.trust("IEEE-754: every ordered comparison with a NaN operand is false")
     ctx.trust("max(lb, min(x, ub)) lies in [lb, ub] whenever lb <= ub; a convex combination of two points of a box lies in the box")
     ctx.assume("0 <= alpha (step lengths of the SPG line search are non-negative) -- not proved statically")
